@@ -57,15 +57,40 @@ class Ctx:
         self._cur = ""
 
     # -- rule bookkeeping
+    _import: tuple[str, set[str]] | None = None
+    _muted = False
+
     def rule(self, rid: str, text: str) -> None:
+        if self._import is not None:
+            src, only = self._import
+            self._muted = rid not in only
+            if self._muted:
+                return
+            rid = f"{rid}@{src}"
         self._cur = rid
         self.rules.setdefault(rid, {"text": text, "instances": 0, "failed": 0})
+
+    def run_imported(self, src: str, only: set[str], fn: t.Callable[["Ctx"], t.Any]) -> None:
+        """Run another property's check function keeping only the rules in ``only``.
+
+        A property whose argument leans on a rule owned by another property (C01's
+        "this assertion is unreachable because C03.R7 holds") re-checks that rule itself,
+        reported as ``<rule>@<owner>``, so that its own command detects the breakage."""
+        prev = (self._import, self._muted, self._cur)
+        self._import = (src, only)
+        self._muted = True
+        try:
+            fn(self)
+        finally:
+            self._import, self._muted, self._cur = prev
 
     def use(self, *mods: str) -> None:
         self.units.update(mods)
 
     def ok(self, instance: str, detail: t.Any = None, trivial: bool = False) -> None:
         """One obligation (rule instance) examined and discharged."""
+        if self._muted:
+            return
         self.obligations += 1
         self.discharged += 1
         r = self.rules[self._cur]
@@ -77,6 +102,8 @@ class Ctx:
 
     def bad(self, where: str, construct: str, msg: str, loc: str = "") -> None:
         """One obligation examined and violated."""
+        if self._muted:
+            return
         self.obligations += 1
         r = self.rules[self._cur]
         r["instances"] += 1
@@ -93,6 +120,8 @@ class Ctx:
 
     def floor(self, what: str, got: int, minimum: int) -> None:
         """A rule matching fewer sites than confirmed by hand passes vacuously: refuse."""
+        if self._muted:
+            return
         if got < minimum:
             raise AnalysisError(
                 f"{self.prop}.{self._cur}: only {got} {what} found, expected at least {minimum}"
